@@ -5,8 +5,9 @@ from props import trxcon_part, randburst_part
 ID = "C10"
 LEVEL = "proof"
 LEAN_MODULES = ["OsmoVerif.Props.C10"] + (["OsmoVerif.Props.Trxcon"] if ID == "C05" else []) + (randburst_part.LEAN_MODULES if ID == "C10" else [])
-LEAN_MODEL_MODULES = wc.LEAN_MODEL_MODULES + (trxcon_part.LEAN_MODEL_MODULES if ID == "C05" else []) + (randburst_part.LEAN_MODEL_MODULES if ID == "C10" else [])
-DRIVER_MODULES = wc.DRIVER_MODULES + (["TrxconIf"] if ID == "C05" else []) + (randburst_part.DRIVER_MODULES if ID == "C10" else [])
+LEAN_MODEL_MODULES = wc.LEAN_MODEL_MODULES + (trxcon_part.LEAN_MODEL_MODULES if ID == "C05" else []) + (randburst_part.LEAN_MODEL_MODULES if ID == "C10" else []) + \
+    (["OsmoVerif.Model.WorldSched"] if ID == "C03" else [])
+DRIVER_MODULES = wc.DRIVER_MODULES + (["TrxconIf"] if ID == "C05" else []) + (randburst_part.DRIVER_MODULES if ID == "C10" else []) + (["WorldSched"] if ID == "C03" else [])
 ASSUMPTIONS = wc.ASSUMPTIONS + [] + (randburst_part.ASSUMPTIONS if ID == "C10" else [])
 MANIFEST = {
     "text": "Lean theorems on handleDataMsg: soft bits 127/-127 per hard bit, FN/TN preserved, recipient's header version with legacy padding on v0, RSSI formula or FAKE_RSSI window, ToA256 window minus 256*TA, C/I window, modulation by burst length, TSC detection on NB/SB/AB layouts over the regenerated training-sequence table; the burst generators of rand_burst_gen.py (gen_nb/gen_sb/gen_ab for every random stream and given or drawn TSC, gen_fb, the dummy-burst table) proved to build exactly those layouts (Props/C10Burst) and compared with the real RandBurstGen under a scripted random source; correspondence of every emitted datagram; oracle parses the delivered datagrams per the TRXD layout and checks them against the reference windows",
@@ -26,6 +27,9 @@ def gen(run):
 
 def correspond(run, corr):
     wc.correspond(run, corr, CORR_PROFILES, 10000, 150000)
+    if ID == "C03":
+        # interleaving model vs the real code under forced schedules (one socket-thread operation x one tick, every boundary)
+        wc.sched_correspond(run, corr)
     if ID == "C05":
         trxcon_part.correspond(run, corr, parts=("cmd", "rsp"))
     if ID == "C10":
@@ -33,10 +37,12 @@ def correspond(run, corr):
 
 
 def search(run, corr, deep):
-    found = wc.oracle(run, corr, deep, ID, ORACLE_PROFILES, 6000, 100000)
+    found = 0
     if ID == "C03":
         # thread schedules: one socket-thread operation racing one tick at every atomic-action boundary
         found += wc.sched_oracle(run, corr, deep)
+    # the history oracle searches deeper when a proof or a tie broke, unless the schedule oracle has already produced the failing schedule
+    found += wc.oracle(run, corr, deep and not found, ID, ORACLE_PROFILES, 6000, 100000)
     if ID == "C05":
         # trxcon side: real trx_if.c command emission / response parser, and the cross run with the real toolkit
         found += trxcon_part.oracle(run, corr, deep, parts=("cmd", "rsp"))
